@@ -220,6 +220,45 @@ theorem continueOrRetDyn_reachable {d d' : DState} {s1 : State} {r : Nat} {res e
     · simp at hs; obtain ⟨hd, _⟩ := hs; subst hd; exact hr2
     · exact advanceAny_reachable (d := { d with s := s2 }) hr2 hs
 
+theorem roundFrom_reachable {d : DState} {c : CfgId} {s s' : State} {i : Nat} {ups : List (Key × HostId)}
+    (h : Reachable s) (hs : roundFrom d c s i ups = some s') : Reachable s' := by
+  induction ups generalizing s i with
+  | nil => simp [roundFrom] at hs; subst hs; exact h
+  | cons u rest ih =>
+    simp only [roundFrom] at hs
+    split at hs
+    next s1 h1 => exact ih (Reachable.step _ h h1) hs
+    next => simp at hs
+
+theorem activeRound_reachable {d : DState} {c : CfgId} {s s' : State} (h : Reachable s)
+    (hs : activeRound d s c = some s') : Reachable s' := by
+  simp only [activeRound] at hs
+  split at hs
+  · split at hs
+    · exact roundFrom_reachable h hs
+    · simp at hs; subst hs; exact h
+  · simp at hs
+
+theorem loadCore_reachable {d : DState} {ks : List Key} {p : Params} {fb : List Key} {x : DState × String}
+    (h : Reachable d.s) (hs : loadCore d ks p fb = some x) : Reachable x.1.s := by
+  simp only [loadCore] at hs
+  split at hs
+  · simp at hs
+  next s1 h1 =>
+    have hr1 := Reachable.step _ h h1
+    split at hs
+    · simp at hs
+    next s2 h2 =>
+      have hr2 := stores_reachable hr1 h2
+      split at hs
+      · simp at hs; subst hs; exact hr2
+      next old =>
+        split at hs
+        · simp at hs; subst hs; exact hr2
+        · split at hs
+          · simp at hs
+          next s3 h3 => simp at hs; subst hs; exact unload_reachable hr2 h3
+
 theorem sstep_reachable {d d' : DState} {st : SStep} {ev : String} (h : Reachable d.s)
     (hs : sstep d st = some (d', ev)) : Reachable d'.s := by
   cases st with
@@ -232,20 +271,29 @@ theorem sstep_reachable {d d' : DState} {st : SStep} {ev : String} (h : Reachabl
     simp only [sstep] at hs
     split at hs
     · simp at hs
-    next s1 h1 =>
-      have hr1 := Reachable.step _ h h1
+    next x hx =>
+      have hrx := loadCore_reachable h hx
       split at hs
       · simp at hs
-      next s2 h2 =>
-        have hr2 := stores_reachable hr1 h2
+      next s' h' => simp at hs; obtain ⟨hd, _⟩ := hs; subst hd; exact activeRound_reachable hrx h'
+  | health k ok =>
+    simp only [sstep] at hs
+    split at hs
+    · simp at hs
+    · simp at hs; obtain ⟨hd, _⟩ := hs; subst hd; exact h
+  | round =>
+    simp only [sstep] at hs
+    split at hs
+    · simp at hs
+    next c hc =>
+      split at hs
+      · simp at hs
+      next cs hcs =>
         split at hs
-        · simp at hs; obtain ⟨hd, _⟩ := hs; subst hd; exact hr2
-        next old =>
-          split at hs
-          · simp at hs; obtain ⟨hd, _⟩ := hs; subst hd; exact hr2
-          · split at hs
-            · simp at hs
-            next s3 h3 => simp at hs; obtain ⟨hd, _⟩ := hs; subst hd; exact unload_reachable hr2 h3
+        · cases ha : activeRound d d.s c with
+          | none => simp [ha] at hs
+          | some s' => simp [ha] at hs; obtain ⟨hd, _⟩ := hs; subst hd; exact activeRound_reachable h ha
+        · simp at hs
   | badLoad ks =>
     simp only [sstep] at hs
     split at hs
@@ -528,6 +576,7 @@ theorem leaves_only_by_finish {s s' : State} {a : Action} {r : Nat} {q q' : Req}
         · rw [hq] at hq2; simp at hq2; subst hq2; simp [hpc, Pc.inFlightOn] at hin
       all_goals simp at hs
     next => simp at hs
+  | activeCheck c i pass => exact (same (stepActive_core hs).2.2.2.1).elim
   | fallback r2 =>
     simp only [step, stepFallback] at hs
     split at hs
